@@ -71,7 +71,7 @@ def header_style(rng):
 
 
 JUNK = ["", "x", "12.5", "n/a", "hello, world", 'say "hi"', "2020-01-01", "-1", "Buy", "ünï", "#A-1", "# note", ";x", "//c", "%", "'q", "=1+1"]
-MEMOS = ["", "", "", "note", "#3 trim", "# lot 7", "; semi", "-dash", "a, b", "ünï", "//x", "\"q\""]
+MEMOS = ["", "", "", "note", "#3 trim", "# lot 7", "; semi", "-dash", "a, b", "ünï", "//x", "\"q\"", "filed in D:\\tax\\2020\\, box 3\\", "back\\slash"]
 
 
 def relayout_files(rng, rows):
@@ -310,8 +310,12 @@ def c07_cli(V, pop, tier):
             paths = []
             for i, pc in enumerate(pieces):
                 p = os.path.join(wd, "%s-%s_part.csv" % (cid, "zyxwv"[i]))      # given order = reverse alphabetical order
-                with open(p, "w") as f:
-                    f.write(gen.rows_to_csv(pc, cols))
+                with open(p, "w", encoding="utf-8") as f:
+                    # files saved by spreadsheet programs start with a byte-order mark; column order varies per file
+                    pcols = list(cols)
+                    if rng.random() < 0.5:
+                        rng.shuffle(pcols)
+                    f.write(("\ufeff" if rng.random() < 0.6 else "") + gen.rows_to_csv(pc, pcols))
                 paths.append(p)
             init = []
             for sp in gen.init_args(h.get("init", {})):
